@@ -28,6 +28,7 @@ MOD = "tensora.ir._peephole"
 BUILDERS: dict = {}  # method name of ir.ast.Expression -> IR class it builds (filled by run())
 HELPERS: dict = {}  # private single-expression helpers of the peephole module: name -> (params, expr)
 CONSTS: dict = {}  # module-level tuples of IR literals: name -> [expr, ...]
+SCALARS: dict = {}  # module-level names bound once to a constructor call or literal: name -> expr
 
 
 def collect_helpers(ix):
@@ -35,7 +36,14 @@ def collect_helpers(ix):
     implementations) are inlined where called; module-level tuple constants are expanded."""
     HELPERS.clear()
     CONSTS.clear()
+    SCALARS.clear()
     tree = ix.module(MOD)
+    bound = {}
+    for st in tree.body:
+        if isinstance(st, (ast.Assign, ast.AnnAssign)) and st.value is not None:
+            for tgt in st.targets if isinstance(st, ast.Assign) else [st.target]:
+                if isinstance(tgt, ast.Name):
+                    bound[tgt.id] = bound.get(tgt.id, 0) + 1
     for st in tree.body:
         if isinstance(st, ast.FunctionDef) and not st.decorator_list:
             body = [b for b in st.body if not (isinstance(b, ast.Expr) and isinstance(b.value, ast.Constant))]
@@ -45,6 +53,10 @@ def collect_helpers(ix):
             tgt = st.targets[0] if isinstance(st, ast.Assign) else st.target
             if isinstance(tgt, ast.Name):
                 CONSTS[tgt.id] = list(st.value.elts)
+        elif isinstance(st, (ast.Assign, ast.AnnAssign)) and st.value is not None and isinstance(st.value, (ast.Call, ast.Constant)):
+            tgt = st.targets[0] if isinstance(st, ast.Assign) else st.target
+            if isinstance(tgt, ast.Name) and bound.get(tgt.id) == 1 and not any(isinstance(n, ast.Global) and tgt.id in n.names for n in ast.walk(tree)):
+                SCALARS[tgt.id] = st.value
 
 
 def _flat(op, parts):
@@ -114,6 +126,10 @@ def term(e, env, ircls):
             return env[e.id]
         if e.id == "self":
             return ("SELF",)
+        if e.id in SCALARS:
+            t = term(SCALARS[e.id], {}, ircls)
+            if t[0] != "?":
+                return t
         return ("?", e.id)
     if isinstance(e, ast.Attribute) and isinstance(e.value, ast.Name) and e.value.id == "self":
         return ("RAW", e.attr)
